@@ -120,11 +120,11 @@ def make_exchange(cfg, dispatcher):
     if lend:
         period = lend.get("period", 10)
 
-        def cond(isym):
+        def cond(isym, req=None):
             return lending.MarginLoanConditions(
                 interest_symbol=isym, interest_percentage=D(str(lend.get("pct", 10))),
                 interest_period=period * STEP, min_interest=D(str(lend.get("minint", 0))),
-                margin_requirement=D(str(lend["req"])))
+                margin_requirement=D(str(lend["req"] if req is None else req)))
         isym = lend.get("isym", "USD")
         quote = lend.get("quote", "USD")  # the symbol the margin account is valued in
         if isym == "same":
@@ -133,6 +133,9 @@ def make_exchange(cfg, dispatcher):
                 ls.set_conditions(s, cond(s))
         else:
             ls = lending.MarginLoans(quote, default_conditions=cond(isym))
+        # per-symbol margin requirements (e.g. a symbol that needs no collateral next to symbols that do)
+        for sym, req in (lend.get("req_by_symbol") or {}).items():
+            ls.set_conditions(sym, cond(sym if isym == "same" else isym, req))
         kw["lending_strategy"] = ls
     fee = cfg.get("fee")
     fee_strategy = fees.NoFee() if fee is None else fees.Percentage(D(str(fee[0])), D(str(fee[1])))
